@@ -36,23 +36,67 @@ fn permutations(n: usize) -> Vec<Vec<usize>> {
     out
 }
 
+fn def_text(kind: &str, name: &str) -> String {
+    match kind {
+        "struct" => format!("struct {name} {{ v: int32 }}"),
+        "enum" => format!("enum {name} {{ P, Q }}"),
+        "custom" => format!("custom {name}"),
+        "alias" => format!("typealias {name} = Sequence<string>"),
+        _ => format!("interface {name} {{}}"),
+    }
+}
+
 fn collide_texts(case: &Value) -> Vec<String> {
-    let b = match case["k1"].as_str().unwrap_or("struct") {
-        "struct" => "struct B { v: int32 }",
-        "enum" => "enum B { P, Q }",
-        "custom" => "custom B",
-        "alias" => "typealias B = Sequence<string>",
-        _ => "interface B {}",
-    };
+    let arr = case["arr"].as_str().unwrap_or("defmod");
+    let k1 = case["k1"].as_str().unwrap_or("struct");
+    let k2 = case["k2"].as_str().unwrap_or("-");
     let r = &case["ref"];
     let written = format!("{}{}", if r["global"] == true { "::" } else { "" }, strs(&r["segs"]).join("::"));
     let user = format!("module {}\nstruct UseIt {{ f: {written} }}\n", strs(&r["scope"]).join("::"));
-    let mut v = vec![format!("module A\n{b}\n"), "module A::B\nstruct X {}\n".to_owned()];
-    if case["withC"] == true {
-        v.push("module A::B::C\nstruct Y {}\n".to_owned());
+    match arr {
+        "membermod" => {
+            let container = match k2 {
+                "field" => "struct N { T: int32 }",
+                "operation" => "interface N { T() }",
+                "enumerator" => "enum N { T }",
+                _ => "interface I { N(T: int32) }", // the parameter T of operation I::N ... see below
+            };
+            // a parameter's key is A::I::N::T, so for parameters the colliding module is A::I::N: keep the key shape
+            // A::N::T by naming the interface N and the operation T, with a parameter whose module is one level deeper
+            let (first, second_mod, third_mod) = if k2 == "parameter" {
+                ("module A\ninterface N { T(Y: int32) }\n".to_owned(), "module A::N".to_owned(), "module A::N::T".to_owned())
+            } else {
+                (format!("module A\n{container}\n"), "module A::N".to_owned(), "module A::N::T".to_owned())
+            };
+            let mut v = vec![first, format!("{second_mod}\n{}\n", def_text(k1, "T"))];
+            if case["withC"] == true {
+                v.push(format!("{third_mod}\nstruct Y {{}}\nstruct UseY {{ g: Y }}\n"));
+            }
+            v.push(user);
+            v
+        }
+        "defdef" => vec![
+            format!("module A\n{}\n", def_text(k1, "B")),
+            format!("module A\n{}\n", def_text(k2, "B")),
+            "module A\nstruct UseIt { f: B }\n".to_owned(),
+        ],
+        "ppdefine" => {
+            let second = if k2 == "redef" {
+                "module A\nstruct Q { a: int32 }\n#if FLAG\nstruct P {}\n#endif\n"
+            } else {
+                "module A\nstruct Q {\n  a: int32\n#if FLAG\n  extra: int32\n#endif\n}\n"
+            };
+            vec!["#define FLAG\nmodule A\nstruct P {}\n".to_owned(), second.to_owned(), "module A\n#if !FLAG\nstruct R {}\n#endif\n".to_owned()]
+        }
+        _ => {
+            let mut v = vec![format!("module A\n{}\n", def_text(k1, "B")), "module A::B\nstruct X {}\n".to_owned()];
+            if case["withC"] == true {
+                v.push("module A::B::C\nstruct Y {}\n".to_owned());
+            }
+            v.push(user);
+            v
+        }
     }
-    v.push(user);
-    v
 }
 
 impl Family for Repro {
